@@ -22,7 +22,7 @@ FA = 7            # force_after used by the injected close() calls
 REACT = 3         # a stubborn handler's reaction time
 TAIL = 200        # virtual seconds after the conversation
 LTS_EVENTS = {'Q', 'W', 'B', 'C', 'X', 'D', 'NQ', 'NW', 'BT', 'F', 'O', 'OB', 'ON', 'R', 'L', 'LE', 'AC', 'ACC',
-              'ACT', 'AB', 'A', 'Z', 'XC'}
+              'ACT', 'AB', 'A', 'Z', 'XC', 'OM'}
 
 RULE = ('case = (session kind RPCSession|MessageSession, transport RSTransport|USTransport, '
         'graceful close completes or stalls, event list); crash-point cases = conversation of '
@@ -213,9 +213,13 @@ def random_lts_case(r):
             evs.append(('F', r.randint(1, h)))
         elif x < 0.36 and h:
             evs.append(('Z', r.randint(1, h)))
-        elif x < 0.47 and skind == 'rpc':
+        elif x < 0.45 and skind == 'rpc':
             k += 1
             evs.append(('O', k))
+        elif x < 0.47 and skind == 'rpc':
+            n = r.choice([49, 50, 51, 53, 60])
+            evs.append(('OM', k + 1, n))
+            k += n
         elif x < 0.52 and skind == 'rpc' and k:
             evs.append(('R', r.randint(1, k)))
         elif x < 0.58:
@@ -450,7 +454,8 @@ def model_line(ctx, cfg, evs):
     dfa = (ctx.facts or {}).get('default_force_after', 30)
     dfa = int(dfa) if isinstance(dfa, (int, float)) else 30
     pt = int(cfg.get('ptimeout') or 30)
-    return (f'{rt} {pt} {int(bool(cfg["stalled"]))} {dfa} 1 ; '
+    ol = int((ctx.facts or {}).get('outgoing_limit', 50))
+    return (f'{rt} {pt} {ol} {int(bool(cfg["stalled"]))} {dfa} 1 ; '
             + ' ; '.join(W.ser(e) for e in evs))
 
 
